@@ -56,8 +56,13 @@ def litTextNeg (name : Str) : Str :=
   | none => "  \\overline{".toList ++ name ++ ['}']
   | some k => "{\\overline{".toList ++ name.take k ++ ['}'] ++ name.drop k ++ ['}']
 
-/-- the text of a literal without the alignment blanks -/
-def litCore (name : Str) (neg : Bool) : Str := strip (if neg then litTextNeg name else litTextPos name)
+/-- the text of a literal without the alignment blanks (what `strip()` leaves of `littext[±v]`) -/
+def litCore (name : Str) (neg : Bool) : Str :=
+  if neg then
+    match splitPoint name with
+    | none => "\\overline{".toList ++ name ++ ['}']
+    | some k => "{\\overline{".toList ++ name.take k ++ ['}'] ++ name.drop k ++ ['}']
+  else '{' :: name ++ ['}']
 
 /-- `littext[l]`; `names` = `all_variable_labels('x_{}')`; a literal without entry is a `KeyError` -/
 def litText (opb : Bool) (names : List Str) (l : Int) : Except Err Str :=
@@ -339,24 +344,28 @@ def readSum (tbl : List (Str × Int)) : Nat → Row → Except Err (List (Int ×
         else .ok ([term], rest)
       | [] => .ok ([term], [])
 
+/-- the left-hand side of a constraint row and what follows it; the empty sum is written `0` -/
+def readLhs (tbl : List (Str × Int)) (core : Row) : Except Err (List (Int × Int) × Row) :=
+  match core with
+  | [.int 0, .word w, .int d] => .ok ([], [.word w, .int d])
+  | _ => readSum tbl core.length core
+
+/-- relation and bound -/
+def readRel (ts : List (Int × Int)) : Row → Except Err PBC
+  | [.word w, .int d] =>
+    if w = "\\geq".toList then .ok ⟨ts, .ge, d⟩
+    else if w = "=".toList then .ok ⟨ts, .eq, d⟩
+    else .error .valueError
+  | _ => .error .valueError
+
 /-- a framed constraint row back to the constraint -/
 def readConstraintRow (names : List Str) (r : Row) : Except Err PBC :=
   match dropFrame r with
   | .error e => .error e
   | .ok core =>
-    let lhs : Except Err (List (Int × Int) × Row) :=
-      match core with
-      | .int 0 :: .word w :: rest =>
-        if w = "\\geq".toList ∨ w = "=".toList then .ok ([], .word w :: rest)
-        else readSum (litTable names) core.length core
-      | _ => readSum (litTable names) core.length core
-    match lhs with
+    match readLhs (litTable names) core with
     | .error e => .error e
-    | .ok (ts, [.word w, .int d]) =>
-      if w = "\\geq".toList then .ok ⟨ts, .ge, d⟩
-      else if w = "=".toList then .ok ⟨ts, .eq, d⟩
-      else .error .valueError
-    | .ok _ => .error .valueError
+    | .ok p => readRel p.1 p.2
 
 /-! ### format selection -/
 
@@ -390,6 +399,15 @@ def splitext (p : Str) : Str :=
     let fnStart := match rfind '/' p with | some s => s + 1 | none => 0
     if fnStart ≤ dot ∧ (((p.drop fnStart).take (dot - fnStart)).any (· != '.')) then p.drop dot else []
 
+/-- `ext` after the `try` block: `os.path.splitext(name)[-1][1:]`, or `None` when the name cannot
+be had (`AttributeError` for an object without `.name`, `TypeError` for a non-string name — caught
+since the fix 8a26dc4 of D30) -/
+def fileExt : FileArg → Option Str
+  | .path s => some ((splitext s).drop 1)
+  | .named s => some ((splitext s).drop 1)
+  | .fdNamed => none
+  | .nameless => none
+
 /-- `guess_output_format(fileorname, fileformat_request)`; `request = none` ⇔ `None` -/
 def guessOutputFormat (f : FileArg) (request : Option Str) : Except Err Fmt :=
   match request with
@@ -399,17 +417,9 @@ def guessOutputFormat (f : FileArg) (request : Option Str) : Except Err Fmt :=
     else if r = "opb".toList then .ok .opb
     else .error .valueError
   | none =>
-    let ext : Except Err (Option Str) := match f with
-      | .path s => .ok (some ((splitext s).drop 1))
-      | .named s => .ok (some ((splitext s).drop 1))
-      | .fdNamed => .ok none                    -- os.path.splitext(int): TypeError is caught (fix 8a26dc4, D30)
-      | .nameless => .ok none                   -- AttributeError is caught
-    match ext with
-    | .error e => .error e
-    | .ok e =>
-      if e = some "tex".toList then .ok .latex
-      else if e = some "opb".toList then .ok .opb
-      else .ok .dimacs
+    if fileExt f = some "tex".toList then .ok .latex
+    else if fileExt f = some "opb".toList then .ok .opb
+    else .ok .dimacs
 
 /-- which writer `CNFio.to_file` / `OPBio.to_file` call -/
 def toFileWriter (isOpb : Bool) (f : FileArg) (request : Option Str) : Except Err Fmt :=
